@@ -727,12 +727,155 @@ Proof.
   - destruct (negb (String.eqb _ "")); [left; eexists; reflexivity|auto].
 Qed.
 
+(* ---------- snapshot reload ---------- *)
+
+Lemma decode_encode e : decode_rec (encode_rec e) = e.
+Proof.
+  destruct e as [[id ms a b u by_ cm an] ex]. unfold decode_rec, encode_rec. cbn.
+  destruct ms as [|m0 ms]; reflexivity.
+Qed.
+
+Lemma foldl_insert_lookup {A} (l : list (string * A)) :
+  NoDup (l.*1) -> forall (acc : gmap string A) k,
+  foldl (fun a kv => <[fst kv := snd kv]> a) acc l !! k =
+  match (list_to_map l : gmap string A) !! k with Some v => Some v | None => acc !! k end.
+Proof.
+  induction l as [|[k0 v0] r IH]; intros Hn acc k.
+  - cbn. rewrite lookup_empty. reflexivity.
+  - cbn in Hn. apply NoDup_cons in Hn as [Hnin Hn]. cbn [foldl fst snd]. rewrite IH by exact Hn.
+    replace (list_to_map ((k0, v0) :: r) : gmap string A) with (<[k0 := v0]> (list_to_map r : gmap string A)) by reflexivity.
+    destruct (decide (k = k0)) as [->|Hne].
+    + rewrite (not_elem_of_list_to_map_1 _ _ Hnin), !lookup_insert. reflexivity.
+    + rewrite !lookup_insert_ne by congruence. reflexivity.
+Qed.
+
+Lemma decode_batch_snapshot_gen l : forall acc,
+  (forall k e, (k, e) ∈ l -> m_id e = k) ->
+  decode_batch (map (fun kv => Some (encode_rec (snd kv))) l) acc =
+  Some (foldl (fun a kv => <[fst kv := snd kv]> a) acc l).
+Proof.
+  induction l as [|[k e] r IH]; intros acc Hk; [reflexivity|].
+  cbn [map decode_batch snd foldl fst]. rewrite decode_encode, (Hk k e) by left.
+  apply IH. intros k' e' Hin. apply Hk. right. exact Hin.
+Qed.
+
+Theorem decode_snapshot S : key_ok S -> decode_batch (snapshot S) ∅ = Some (st S).
+Proof.
+  intros Hk. unfold snapshot. rewrite decode_batch_snapshot_gen.
+  - f_equal. apply map_eq. intros k. rewrite foldl_insert_lookup by apply NoDup_fst_map_to_list.
+    rewrite list_to_map_to_list, lookup_empty. destruct (st S !! k); reflexivity.
+  - intros k e Hin. apply elem_of_map_to_list in Hin. apply (Hk _ _ Hin).
+Qed.
+
+(* ---------- the iteration order is a duplicate-free enumeration of the keys ---------- *)
+
+Lemma elem_of_dedup (x : string) l : x ∈ dedup l <-> x ∈ l.
+Proof.
+  induction l as [|a r IH]; [reflexivity|]. cbn. destruct (bool_decide (a ∈ r)) eqn:Hb.
+  - apply bool_decide_eq_true in Hb. rewrite IH, elem_of_cons. split; [auto|intros [->|?]; auto].
+  - rewrite !elem_of_cons, IH. reflexivity.
+Qed.
+
+Lemma NoDup_dedup l : NoDup (dedup l).
+Proof.
+  induction l as [|a r IH]; [constructor|]. cbn. destruct (bool_decide (a ∈ r)) eqn:Hb; [exact IH|].
+  apply bool_decide_eq_false in Hb. apply NoDup_cons. split; [rewrite elem_of_dedup; exact Hb|exact IH].
+Qed.
+
+Lemma ordered_ids_spec {A} order (m : gmap string A) :
+  NoDup (ordered_ids order m) /\ forall k, k ∈ ordered_ids order m <-> is_Some (m !! k).
+Proof.
+  unfold ordered_ids. set (first := filter (fun k => is_Some (m !! k)) (dedup order)).
+  assert (Hf : NoDup first) by (apply NoDup_filter, NoDup_dedup).
+  assert (Hkeys : forall k, k ∈ (map_to_list m).*1 <-> is_Some (m !! k)).
+  { intros k. rewrite elem_of_list_fmap. split.
+    - intros ([k' v] & -> & Hin). apply elem_of_map_to_list in Hin. cbn. rewrite Hin. eauto.
+    - intros [v Hv]. exists (k, v). split; [reflexivity|]. apply elem_of_map_to_list. exact Hv. }
+  split.
+  - apply NoDup_app. split; [exact Hf|]. split.
+    + intros k Hk Hin. apply elem_of_list_filter in Hin as [Hn _]. contradiction.
+    + apply NoDup_filter, NoDup_fst_map_to_list.
+  - intros k. rewrite elem_of_app. split.
+    + intros [Hin|Hin].
+      * apply elem_of_list_filter in Hin as [H _]. exact H.
+      * apply elem_of_list_filter in Hin as [_ H]. apply Hkeys. exact H.
+    + intros Hk. destruct (decide (k ∈ first)) as [Hin|Hnin]; [left; exact Hin|].
+      right. apply elem_of_list_filter. split; [exact Hnin|]. apply Hkeys. exact Hk.
+Qed.
+
+Lemma omap_lookup_all (m : gmap string msil) ids :
+  (forall k e, m !! k = Some e -> m_id e = k) -> (forall k, k ∈ ids -> is_Some (m !! k)) ->
+  map m_id (omap (fun k => m !! k) ids) = ids /\
+  forall e, e ∈ omap (fun k => m !! k) ids -> m !! m_id e = Some e.
+Proof.
+  intros Hk. induction ids as [|k ids IH]; intros Hin; [split; [reflexivity|intros e H; inversion H]|].
+  destruct (Hin k ltac:(left)) as [e He].
+  destruct IH as [IH1 IH2]; [intros k' H; apply Hin; right; exact H|].
+  cbn. rewrite He. cbn. rewrite IH1, (Hk _ _ He). split; [reflexivity|].
+  intros e' Hin'. apply elem_of_cons in Hin' as [->|Hin']; [rewrite (Hk _ _ He); exact He|auto].
+Qed.
+
+Lemma ordered_vals_spec order (m : gmap string msil) :
+  (forall k e, m !! k = Some e -> m_id e = k) ->
+  map m_id (ordered_vals order m) = ordered_ids order m /\
+  forall e, e ∈ ordered_vals order m -> m !! m_id e = Some e.
+Proof.
+  intros Hk. unfold ordered_vals. apply omap_lookup_all; [exact Hk|].
+  intros k Hin. apply (proj2 (ordered_ids_spec order m)). exact Hin.
+Qed.
+
+(* ---------- the indexes loadSnapshot builds ---------- *)
+
+Lemma load_fold x v es : forall m0 l0,
+  Forall (fun e => compiles x (s_ms (m_sil e)) = true) es ->
+  foldl (load_one x v) (m0, l0) es =
+  (foldl (fun a e => <[m_id e := s_ms (m_sil e)]> a) m0 es, l0 ++ map (fun e => (v, m_id e)) es).
+Proof.
+  induction es as [|e es IH]; intros m0 l0 H; [cbn; rewrite app_nil_r; reflexivity|].
+  apply Forall_cons in H as [He H]. cbn [foldl load_one]. rewrite He, IH by exact H.
+  cbn [map]. rewrite <- app_assoc. reflexivity.
+Qed.
+
+Lemma foldl_insert_is_Some (es : list msil) : forall (m0 : gmap string (list (list matcher))) k,
+  is_Some (foldl (fun a e => <[m_id e := s_ms (m_sil e)]> a) m0 es !! k) <-> is_Some (m0 !! k) \/ k ∈ map m_id es.
+Proof.
+  induction es as [|e es IH]; intros m0 k.
+  - cbn. split; [auto|intros [?|H]; [assumption|inversion H]].
+  - cbn [foldl map]. rewrite IH, lookup_insert_is_Some, elem_of_cons. split.
+    + intros [[->|[_ ?]]|?]; auto.
+    + intros [?|[->|?]]; auto. destruct (decide (m_id e = k)); auto.
+Qed.
+
+(* RELOAD keeps the content and re-establishes the bookkeeping invariant, for every iteration order *)
+Theorem reload_spec x S order :
+  Inv x S ->
+  exists S', reload_op x S order = (S', RReloaded) /\ st S' = st S /\ Inv x S' /\ ver S' = 1.
+Proof.
+  intros HI. unfold reload_op, load_snapshot. rewrite (decode_snapshot S (inv_key _ _ HI)).
+  destruct (ordered_vals_spec order (st S) (inv_key _ _ HI)) as [Hids Hvals].
+  destruct (ordered_ids_spec order (st S)) as [Hnd Hin].
+  assert (Hc : Forall (fun e => compiles x (s_ms (m_sil e)) = true) (ordered_vals order (st S))).
+  { apply Forall_forall. intros e He. apply (inv_comp _ _ HI _ _ (Hvals e He)). }
+  rewrite load_fold by exact Hc. eexists. split; [reflexivity|]. split; [reflexivity|]. split; [|reflexivity].
+  constructor; unfold key_ok; cbn [st mi vi ver empty_store app].
+  - apply (inv_key _ _ HI).
+  - intros k. rewrite map_map. cbn. change (map (fun e => m_id e) _) with (map m_id (ordered_vals order (st S))).
+    rewrite Hids. symmetry. apply Hin.
+  - intros k. rewrite foldl_insert_is_Some, Hids, Hin, lookup_empty.
+    split; [intros [[? ?]|?]; [discriminate|assumption]|auto].
+  - rewrite map_map. cbn. change (map (fun e => m_id e) _) with (map m_id (ordered_vals order (st S))).
+    rewrite Hids. exact Hnd.
+  - apply Forall_forall. intros sv Hsv. apply elem_of_list_fmap in Hsv as (e & -> & _). cbn. lia.
+  - apply (inv_comp _ _ HI).
+  - apply (inv_marshal _ _ HI).
+Qed.
+
 (* ---------- history is immutable under local operations ---------- *)
 
 Definition wf_local (S : store) (o : op) : Prop :=
   match o with
   | OSet _ fresh _ | OApiPost _ fresh _ => st S !! fresh = None   (* uuid uniqueness *)
-  | OMerge _ _ _ | OReload _ => False
+  | OMerge _ _ _ => False
   | _ => True
   end.
 
@@ -788,7 +931,7 @@ Proof.
   - rewrite (gc_exact x) by exact HI. rewrite Hp. destruct (now <? m_exp p) eqn:Hl; [left; reflexivity|].
     right. repeat split; [lia].
   - left. exact Hp.
-  - contradiction.
+  - left. destruct (reload_spec x S order HI) as (S' & -> & Hst & _). cbn [fst]. rewrite Hst. exact Hp.
   - left. unfold api_post. destruct (_ <=? _); [exact Hp|]. destruct (_ <? _); [exact Hp|].
     apply set_op_expired_immutable; assumption.
   - left. apply expire_op_expired_immutable; assumption.
@@ -919,7 +1062,7 @@ Proof.
   - contradiction.
   - apply gc_preserves_inv; exact HI.
   - exact HI.
-  - contradiction.
+  - destruct (reload_spec x S order HI) as (S' & -> & _ & HI' & _). exact HI'.
   - unfold api_post. destruct (_ <=? _); [exact HI|]. destruct (_ <? _); [exact HI|]. apply set_op_inv; exact HI.
   - apply expire_op_inv; exact HI.
   - exact HI.
@@ -1028,7 +1171,7 @@ Proof.
   - rewrite (gc_exact x) by exact HI. destruct Hk as [e He]. rewrite He.
     destruct (now <? m_exp e) eqn:Hl; [left; eauto|right]. split; [reflexivity|]. exists e. split; [reflexivity|lia].
   - left. exact Hk.
-  - contradiction.
+  - left. destruct (reload_spec x S order HI) as (S' & -> & Hst & _). cbn [fst]. rewrite Hst. exact Hk.
   - left. unfold api_post. destruct (_ <=? _); [exact Hk|]. destruct (_ <? _); [exact Hk|]. apply set_op_keeps; exact Hk.
   - left. apply expire_op_keeps; exact Hk.
   - left. exact Hk.
